@@ -261,10 +261,3 @@ Proof.
   apply N.ltb_lt in Hid, Hgen. rewrite Hid, Hgen. reflexivity.
 Qed.
 
-Print Assumptions bin_roundtrip.
-Print Assumptions bin_length.
-Print Assumptions bin_bytes.
-Print Assumptions bin_reject.
-Print Assumptions bin_decode_total.
-Print Assumptions bin_append.
-Print Assumptions json_roundtrip.
